@@ -775,10 +775,11 @@ int main(int argc,char **argv)
 	std::ifstream plan(argv[1]);
 	std::string line;
 	long nexec = 0, nhang = 0;
-	long skip = vt::envl("VERIF_SKIP",0);
+	long skip = vt::envl("VERIF_SKIP",0), max_hangs = vt::envl("VERIF_MAX_HANGS",12);
 	while(std::getline(plan,line)) {
 		g_plan_line++;
 		if(g_plan_line <= skip) continue;
+		if(nhang >= max_hangs) { fprintf(stdout,"aborted=%ld (too many responses that never completed)\n",g_plan_line); break; }
 		if(line.empty() || line[0]=='#') continue;
 		std::map<std::string,std::string> kv;
 		std::istringstream ls(line);
